@@ -13,6 +13,9 @@ INV = {
     "spif_ustr_t_struct": {"buf": "s", "strict": True, "nul": True, "es": 1},
     "spif_mbuff_t_struct": {"buf": "buff", "strict": False, "nul": False, "es": 1},
     "spif_array_t_struct": {"buf": "items", "array": True, "es": 8},
+    # classes that embed a str as their first member (the URL / regexp text)
+    "spif_url_t_struct": {"buf": "s", "strict": True, "nul": True, "es": 1},
+    "spif_regexp_t_struct": {"buf": "s", "strict": True, "nul": True, "es": 1},
 }
 
 
